@@ -508,6 +508,18 @@ def pair_histories(run, rng, quick, traces, meta) -> None:
 
 
 def lifecycle_part(run, rng, quick, traces, meta) -> None:
+    # whether a dead connection's selection is forgotten must not depend on WHEN the cyclic
+    # garbage collector runs: it does not run at all while these histories are played
+    import gc
+    gc.disable()
+    try:
+        _lifecycle_part(run, rng, quick, traces, meta)
+    finally:
+        gc.enable()
+        gc.collect()
+
+
+def _lifecycle_part(run, rng, quick, traces, meta) -> None:
     graph, res = tlc.dump_graph('RecentModel.tla', 'RecentModel_2.cfg' if quick else 'RecentModel_3.cfg',
                                 workers=8)
     run.add_model(res, 'RecentModel')
@@ -544,6 +556,9 @@ def lifecycle_part(run, rng, quick, traces, meta) -> None:
                     cmd(s, ('select', 'Nope'))
                 elif name == 'Close':
                     cmd(s, ('close',))
+                elif name == 'Gone':
+                    sr.reconnect(s, rng.choice(['bad+logout', 'eof', 'idle+eof', 'bad+idle+eof']))
+                    log.append((s, ('gone',)))
                 elif name == 'Append':
                     cmd(s, ('append', str(a[1]), 1, ()))
                 elif name == 'Copy':
@@ -560,6 +575,14 @@ def lifecycle_part(run, rng, quick, traces, meta) -> None:
             for s in sessions:
                 if sr.server_view(s) is not None:
                     cmd(s, ('fetch', False, '1:*', False))
+            # one more delivery into each mailbox (whoever still holds a selection it should no
+            # longer have - a failed SELECT, a connection that is gone - would take it)
+            if rng.random() < 0.7:
+                for m in ('INBOX', 'Box'):
+                    cmd('d', ('append', m, 1, ()))
+                for s in sessions:
+                    if sr.server_view(s) is not None:
+                        cmd(s, ('fetch', False, '1:*', False))
             for m in ('INBOX', 'Box'):
                 cmd('d', ('select', m))
                 cmd('d', ('fetch', False, '1:*', False))
